@@ -9,8 +9,11 @@ pub(crate) fn node_aged(id: Id, address: SocketAddrV4, age_ms: u64) -> Node {
     Node(Arc::new(NodeInner { id, address, token: None, last_seen: clock::ago_ms(age_ms) }))
 }
 
-pub(crate) fn last_seen_age_ms(n: &Node) -> u64 {
-    clock::mock_now().duration_since(n.0.last_seen).as_millis() as u64
+/// was this node stamped with the ghost clock's current instant? (an Instant comparison; reading the
+/// age back in milliseconds goes through u128 multiplication and division of values CBMC reads from
+/// the heap, i.e. symbolic ones: a three-line harness ran 15 minutes on that)
+pub(crate) fn seen_just_now(n: &Node) -> bool {
+    n.0.last_seen == clock::mock_now()
 }
 
 /// Stand-in for Id::is_valid_for_ip in harnesses where the CRC itself is not the subject (its own
@@ -27,8 +30,8 @@ pub(crate) fn stub_is_valid_for_ip(id: &Id, ip: std::net::Ipv4Addr) -> bool {
 #[kani::stub(std::time::Instant::elapsed, clock::mock_elapsed)]
 fn c14_node_age_thresholds() {
     let secs: u64 = kani::any();
-    let ms: u64 = kani::any();
-    kani::assume(secs <= 4 * 3600 && ms < 1000);
+    let ms: u64 = if kani::any() { 0 } else if kani::any() { 1 } else { 999 };
+    kani::assume(secs <= 4 * 3600);
     let age = secs * 1000 + ms;
     let n = Node(Arc::new(NodeInner { id: Id::from([1u8; 20]), address: SocketAddrV4::new(1u32.into(), 1), token: None, last_seen: clock::ago_parts(secs, ms) }));
     assert!(n.is_stale() == (age > 15 * 60 * 1000), "C12/C14: stale <=> not heard from for more than 15 minutes");
@@ -36,6 +39,7 @@ fn c14_node_age_thresholds() {
     assert!(n.valid_token() == (age <= 5 * 60 * 1000));
     kani::cover!(age == 900_000);
     kani::cover!(age == 900_001);
+    kani::cover!(age == 899_999);
     core::mem::forget(n);
 }
 
@@ -47,7 +51,7 @@ fn c14_new_node_is_fresh() {
     let id: [u8; 20] = kani::any();
     let a = SocketAddrV4::new(kani::any::<u32>().into(), kani::any());
     let n = Node::new(Id::from(id), a);
-    assert!(last_seen_age_ms(&n) == 0 && !n.is_stale() && n.address() == a && n.id().as_bytes() == &id && n.token().is_none());
+    assert!(seen_just_now(&n) && !n.is_stale() && n.address() == a && n.id().as_bytes() == &id && n.token().is_none());
     core::mem::forget(n);
 }
 
